@@ -163,6 +163,8 @@ func Check() *common.Check {
 	return &common.Check{
 		ID:    "C17",
 		Level: "exploration",
+		// every case is recorded before it runs: a fatal error or a hang of the worker is attributed to it
+		CrashSafe: true,
 		Rule: fmt.Sprintf("texts = every sequence of 1..3 lines plus every 4-line text that wraps two arbitrary lines into a multi-line string literal or block comment (quick); thorough adds every other sequence of 4 lines; over a %d-fragment line alphabet "+
 			"(clean code, empty line, whitespace-only line, double spaces, trailing spaces, trailing tab, tab-/space-/mixed-indented code, lower-case keywords, "+
 			"a one-line string literal and the opening/middle/closing line of a multi-line string literal, each holding a keyword, double spaces and trailing blanks, line comment and block comment holding quotes and keywords, "+
